@@ -205,6 +205,7 @@ static Region *find_region(uintptr_t a, int me) {
   if (a < r.hi) { g_last_hit[me] = lo - 1; return &r; }
   return nullptr;
 }
+void thr::co_yield_point(const char *) {}
 void thr::region_add(const void *p, size_t n, int owner, const char *name) {
   Region r{(uintptr_t)p, (uintptr_t)p + n, owner, name, name[0] == 'l' && name[1] == 'i' && name[2] == 'b' && name[3] == '-', -1, 0, {0}};
   auto it = std::lower_bound(g_regions.begin(), g_regions.end(), r, [](const Region &a, const Region &b) { return a.lo < b.lo; });
